@@ -93,7 +93,7 @@ pub fn step_family(ctx: &mut Ctx) {
     // EXEC is the loop's own continuation, in every iteration including the last (a body may pop or
     // duplicate it: the EXEC.POP "break" idiom), and the element / index is exposed as documented
     let loop_names = ["EXEC.LOOP", "CODE.LOOP", "INTVECTOR.LOOP", "INDEX.INCREASE", "INDEX.CURRENT", "INDEX.DESTINATION", "INDEX.DEFINE", "INDEX.POP"];
-    let maxd = if ctx.tier_thorough { 5 } else { 4 };
+    let maxd = 5;
     for ed in 0..=maxd.min(3) {
         for cd in 0..=2usize {
             for x in [vec![], vec![(0usize, 0usize)], vec![(0, 2)], vec![(1, 2), (5, 9)], vec![(2, 2), (0, 1)], vec![(5, 3)], vec![(3, 0), (0, 2)], vec![(usize::MAX, 0)]] {
@@ -327,8 +327,8 @@ fn int_vectors(maxlen: usize) -> Vec<Vec<i32>> {
 
 pub fn loops_family(ctx: &mut Ctx) {
     let mut real = real_with_probe();
-    let nmax = if ctx.tier_thorough { 12 } else { 9 };
-    let bs = bodies(ctx.tier_thorough);
+    let nmax = if ctx.tier_thorough { 20 } else { 12 };
+    let bs = bodies(true);
     let mut programs: Vec<(String, Tree)> = vec![];
     for body in &bs {
         for n in -1..=nmax {
@@ -341,7 +341,7 @@ pub fn loops_family(ctx: &mut Ctx) {
                 Tree::L(vec![Tree::I(n), Tree::ins("INDEX.DEFINE"), Tree::ins("CODE.QUOTE"), body.clone(), Tree::ins("CODE.LOOP"), Tree::I(99)]),
             ));
         }
-        for v in int_vectors(if ctx.tier_thorough { 4 } else { 3 }) {
+        for v in int_vectors(if ctx.tier_thorough { 5 } else { 4 }) {
             programs.push((format!("INTVECTOR.LOOP v={:?}", v), Tree::L(vec![Tree::IV(v), Tree::ins("INTVECTOR.LOOP"), body.clone(), Tree::I(99)])));
         }
     }
@@ -512,9 +512,139 @@ pub fn loops_family(ctx: &mut Ctx) {
     let _ = probe_of;
 }
 
+/// tokens of the conformance family: a cross-section of every instruction family plus literals of every kind
+fn mixed_tokens(real: &Real) -> Vec<Tree> {
+    let names = [
+        "EXEC.S", "EXEC.K", "EXEC.IF", "EXEC.DUP", "EXEC.SWAP", "EXEC.ROT", "EXEC.LOOP", "EXEC.DEFINE", "EXEC.POP", "CODE.QUOTE", "CODE.DO", "CODE.DO*", "CODE.IF", "CODE.LOOP", "INTVECTOR.LOOP",
+        "INDEX.DEFINE", "INDEX.CURRENT", "INDEX.INCREASE", "NAME.QUOTE", "INTEGER.DEFINE", "CODE.DEFINE", "CODE.DEFINITION", "BOOLEAN.DEFINE", "INTEGER.DUP", "INTEGER.SWAP", "INTEGER.YANK",
+        "INTEGER.SHOVE", "INTEGER.YANKDUP", "INTEGER.ROT", "INTEGER.POP", "INTEGER.STACKDEPTH", "CODE.DUP", "CODE.SWAP", "CODE.YANK", "CODE.POP", "BOOLEAN.DUP", "BOOLEAN.SWAP", "NAME.DUP", "NAME.SWAP", "INTVECTOR.DUP", "FLOAT.DUP",
+        "INTEGER.+", "INTEGER.-", "INTEGER.*", "INTEGER./", "INTEGER.%", "INTEGER.<", "INTEGER.=", "INTEGER.MAX", "INTEGER.FROMBOOLEAN", "INTEGER.FROMFLOAT", "BOOLEAN.NOT", "BOOLEAN.AND", "BOOLEAN.OR", "BOOLEAN.FROMINTEGER",
+        "FLOAT.+", "FLOAT./", "FLOAT.FROMINTEGER", "FLOAT.<", "CODE.CAR", "CODE.CDR", "CODE.CONS", "CODE.LIST", "CODE.APPEND", "CODE.NTH", "CODE.INSERT", "CODE.EXTRACT", "CODE.SIZE", "CODE.LENGTH",
+        "CODE.CONTAINS", "CODE.POSITION", "CODE.SUBST", "CODE.FROMINTEGER", "CODE.FROMNAME", "CODE.ATOM", "CODE.NULL", "CODE.=", "INTVECTOR.+", "INTVECTOR.GET", "INTVECTOR.SET", "INTVECTOR.LENGTH", "INTVECTOR.APPEND",
+        "INTVECTOR.ROTATE", "INTVECTOR.SUM", "INTVECTOR.ONES", "BOOLVECTOR.AND", "BOOLVECTOR.GET", "BOOLVECTOR.COUNT", "FLOATVECTOR.+", "FLOATVECTOR.GET", "LIST.ADD", "LIST.GET", "LIST.SET", "LIST.REMOVE",
+        "LIST.IVAL", "GRAPH.ADD", "GRAPH.NODE*ADD", "GRAPH.EDGE*ADD", "GRAPH.NODES", "GRAPH.DUP", "GRAPH.NODE*SETSTATE", "INPUT.READ", "INPUT.NEXT", "INPUT.GET", "OUTPUT.WRITE", "OUTPUT.FLUSH", "NAME.CAT", "NAME.=",
+    ];
+    let registered: std::collections::BTreeSet<String> = real.names().into_iter().collect();
+    let mut v: Vec<Tree> = names.iter().filter(|n| registered.contains(**n)).map(|n| Tree::ins(n)).collect();
+    v.extend([
+        Tree::I(0),
+        Tree::I(1),
+        Tree::I(2),
+        Tree::I(-1),
+        Tree::I(9),
+        Tree::B(true),
+        Tree::B(false),
+        Tree::F(0.5),
+        Tree::F(-2.0),
+        Tree::name("A"),
+        Tree::name("BOUND2"),
+        Tree::IV(vec![1, 2]),
+        Tree::IV(vec![9, 1, 3]),
+        Tree::BV(vec![true, false]),
+        Tree::FV(vec![1.5]),
+    ]);
+    v
+}
+
+/// judgement of ONE interpreter step in the state the real execution has reached
+fn judge_step(m: &M, out: &Outcome) -> Verdict {
+    match m.e.first() {
+        None => Verdict::Pass,
+        Some(Tree::Ins(name)) => {
+            let mut m0 = m.clone();
+            m0.e.remove(0);
+            refmodel::judge(name, &m0, out)
+        }
+        Some(top) => {
+            let mut exp = m.clone();
+            let mut log = vec![];
+            ref_step(&mut exp, &mut log, false);
+            match out {
+                Outcome::Panic(p) => Verdict::fail("step", &panic_class(p), p.clone()),
+                Outcome::Ok(g) => {
+                    let d = exp.diff(g);
+                    if d.is_empty() {
+                        Verdict::Pass
+                    } else {
+                        Verdict::fail("step", &format!("mismatch:{:?}", d), format!("top item {} | documented {{{}}} observed {{{}}}", top.key(), crate::core::trunc(&exp.key(), 600), crate::core::trunc(&g.key(), 600)))
+                    }
+                }
+            }
+        }
+    }
+}
+
+/// conform — conformance ALONG executions: every program tree up to S points over a mixed alphabet (a
+/// cross-section of all instruction families), from three initial states, executed by single real steps; EVERY
+/// step is judged by the reference in the state the real execution has reached (instruction steps by their
+/// reference row incl. latitude and known findings, all other steps by the reference interpreter), so each
+/// instruction is also decided on the states that other instructions leave behind.
+pub fn conform_family(ctx: &mut Ctx) {
+    let mut real = Real::new();
+    let toks = mixed_tokens(&real);
+    let mut progs = crate::treeops::trees_up_to(3, &toks);
+    let sub: Vec<Tree> = toks.iter().step_by(if ctx.tier_thorough { 1 } else { 4 }).cloned().collect();
+    // four points: flat triples and their nestings over a sub-alphabet (the whole alphabet in the thorough tier)
+    progs.extend(crate::treeops::trees_up_to(4, &sub).into_iter().filter(|t| t.points() == 4));
+    ctx.extra.push(("programs".into(), crate::core::J::Int(progs.len() as i64)));
+    let mut some = M::default();
+    some.i = vec![3, 1];
+    some.b = vec![true];
+    some.c = vec![Tree::L(vec![Tree::I(1), Tree::I(2)])];
+    some.x = vec![(0, 2)];
+    some.n = vec!["A".into()];
+    let mut pop = crate::alpha::populated();
+    pop.e.clear();
+    let bases = [("empty", M::default()), ("some", some), ("populated", pop)];
+    let horizon = 24;
+    for prog in &progs {
+        for (bl, base) in bases.iter() {
+            let id = match ctx.take() {
+                Some(id) => id,
+                None => continue,
+            };
+            ctx.states += 1;
+            ctx.crumb(id, "program");
+            let mut m = base.clone();
+            m.e.insert(0, prog.clone());
+            let mut verdict = Verdict::Pass;
+            let mut at = String::new();
+            for k in 0..horizon {
+                if m.e.is_empty() {
+                    break;
+                }
+                ctx.transitions += 1;
+                let out = step_once(&mut real, &m);
+                let v = judge_step(&m, &out);
+                match v {
+                    Verdict::Pass => {}
+                    Verdict::Known(idk) => {
+                        if matches!(verdict, Verdict::Pass) {
+                            verdict = Verdict::Known(idk);
+                        }
+                    }
+                    Verdict::Fail { .. } => {
+                        at = format!(" -- at step {} in state {{{}}}", k, crate::core::trunc(&m.key(), 700));
+                        verdict = v;
+                        break;
+                    }
+                }
+                m = match out {
+                    Outcome::Ok(g) => g,
+                    Outcome::Panic(_) => break,
+                };
+            }
+            let okey = m.key();
+            ctx.nontrivial_mark(&okey);
+            ctx.record(id, &okey, verdict, || format!("program {} on the {} state{}", prog.render(), bl, at));
+        }
+    }
+}
+
 pub fn run(ctx: &mut Ctx) {
     match ctx.family.as_str() {
         "step" => step_family(ctx),
+        "conform" => conform_family(ctx),
         "loops" => loops_family(ctx),
         f => panic!("unknown family {}", f),
     }
